@@ -5,6 +5,8 @@ TRUSTED_BASE = [
     "axioms allowed: propext, Classical.choice, Quot.sound (checked by #print axioms on every registered theorem on every run)",
     "Mathlib v4.33.0 modules imported by proof files (never by model files)",
     "tools/extract.py (T1: constants/tables regenerated from /repo/include on every run)",
+    "tools/translate.py (T1b: bodies of small integer functions re-translated from /repo/include into Lean defs on every run; "
+    "its C++-subset semantics - wrap-around of unsigned arithmetic, integer promotion, narrowing - is stated at the top of that file)",
     "correspondence check (T2): harness/*.cpp compiled against /repo/include on every run, lean/Driver (line protocol), tools/verif.py diff",
     "g++ 12 / libstdc++ as execution platform of the harness; -fno-access-control to reach private members",
 ]
